@@ -6,6 +6,7 @@ CONSTANTS
   NRandom = 0
   BuildMax = 0
   BuildIds = {}
+  WithFamilies = FALSE
   StaticInit = TRUE
 INIT JInit
 NEXT JNext
